@@ -269,6 +269,7 @@ fn run_regex(r: &Rx, word_seed: u64, n_words: usize, fault_seed: u64, n_plans: u
     // ---- words through the circuit
     let mut wrng = Prng::new(word_seed, "words");
     let mut words: Vec<Vec<u8>> = vec![];
+    let only = only_word.is_some();
     if let Some(w) = only_word {
         words.push(w);
     } else {
@@ -311,8 +312,23 @@ fn run_regex(r: &Rx, word_seed: u64, n_words: usize, fault_seed: u64, n_plans: u
             }
         }
     }
-    for w in words {
-        let case = ops_parse::rx_case(r, &w);
+    // every other word is parsed with the expression inside a library of several parsers
+    let mut lrng = Prng::new(word_seed, "library");
+    let mut jobs: Vec<(Vec<u8>, u64)> = vec![];
+    if only {
+        // a minimised scenario keeps one word: alone and in every library the full scenario drew
+        jobs.push((words[0].clone(), 0));
+        for _ in 0..n_words / 2 {
+            jobs.push((words[0].clone(), 1 + lrng.below(1 << 12)));
+        }
+    } else {
+        for (wi, w) in words.into_iter().enumerate() {
+            let library = if wi % 2 == 1 { 1 + lrng.below(1 << 12) } else { 0 };
+            jobs.push((w, library));
+        }
+    }
+    for (w, library) in jobs {
+        let case = ops_parse::rx_case_in(r, &w, library);
         let accepted = ops_parse::rx_expected_admissible(&case);
         let o = opcheck::Scn { case, fault_seed, n_plans, only: None, only_late: None };
         match opcheck::run(&o, st, true) {
